@@ -11,7 +11,7 @@ RULE = ('pull: FAIL right after RECV / after 1 or 2 DATA records / in place of D
         'with EVERY position of the FAIL WRTE among the device\'s OKAYs (emitted after 0..n further host WRTEs); reasons {empty, x, Permission denied, 300 bytes, non-UTF-8}; the '
         'FAIL record cut into WRTEs at every set of <=2 positions (<=1 for the 300-byte reason); sync records that are not valid at that point (every known id, first reply and after '
         'a DATA record, for pull, list, stat and the push status); both twins; oracle: pull -> AdbCommandFailureException containing the reason, push -> PushFailedError carrying it, '
-        'invalid record -> InvalidResponseError, never a normal return, never a timeout class, no virtual time spent; non-trivial = every case; distinct = distinct parameter tuple x cut set')
+        'invalid record -> InvalidResponseError, never a normal return, never a timeout class, less virtual time spent than the read timeout; non-trivial = every case; distinct = distinct parameter tuple x cut set')
 ASSUMPTIONS = ['adbsim sync service: after a FAIL to SEND the device keeps consuming and acknowledging DATA until DONE, then closes (handle_send_file)',
                'ids outside the sync id table are unspecified (KeyError today) and not asserted']
 TIMEOUTS = ('AdbTimeoutError', 'TcpTimeoutException')
@@ -58,7 +58,7 @@ def run_pull_fail(params, ch):
         r = s.op(('pull', '/f', 'bytesio'))
         viol = oracle.base_viol(s, completed=False)
         judge_exc(s, r, 'AdbCommandFailureException', reason, viol, 'pull (FAIL %s, cuts %r)' % (when, cuts))
-        if s.env.clock.now - t0 > 0:
+        if s.env.clock.now - t0 >= 10.0:
             viol.append({'msg': 'pull spent %.3f s of virtual time before reporting the failure' % (s.env.clock.now - t0)})
         return {'outcome': r[:2], 'viol': viol, 'nontrivial': ('pull', str(when), params['reason'], tuple(cuts), params['twin']),
                 'sample': {'op': 'pull', 'fail_when': when, 'reason': reason[:20], 'cuts': cuts, 'twin': params['twin'], 'result': r[:2]}, 'trans': len(s.env.events)}
@@ -88,7 +88,7 @@ def run_push_fail(params, ch):
         for v in viol[before:]:
             if v.get('timeout') and pos is not None and pos < dev.count(b'OKAY') and nw >= 2:
                 v['sig'] = 'F5'
-        if s.env.clock.now - t0 > 0 and r[0] == 'exc' and r[1] not in TIMEOUTS:
+        if s.env.clock.now - t0 >= 10.0 and r[0] == 'exc' and r[1] not in TIMEOUTS:
             viol.append({'msg': 'push spent %.3f s of virtual time before reporting the failure' % (s.env.clock.now - t0)})
         return {'outcome': (r[:2], nw, pos), 'viol': viol, 'nontrivial': ('push', size, str(when), params['delay'], params['reason'], tuple(cuts), params['twin']),
                 'sample': {'op': 'push', 'size': size, 'fail_when': when, 'delay': params['delay'], 'reason': reason[:20], 'cuts': cuts, 'twin': params['twin'],
